@@ -11,7 +11,7 @@ CONSTANTS MaxCmds, NVar, Stepwise, NRepl,
 VARIABLES phase, tape, pos, ts, edit
 allvars == <<vars, phase, tape, pos, ts, edit>>
 
-Pool(v) == IF v = 1 THEN <<3, 1, -2, 5, 4, -3>> ELSE <<-1, 4, 6, 2, -5, -2>>
+Pool(v) == IF v = 1 THEN <<3, 1, -2, 5, 4, -3>> ELSE <<0, 4, 6, 0, -5, -2>>      \* (zeros: h0, v0, offsets and controls of exactly zero)
 ArcPool(v) == IF v = 1 THEN <<5, 3, 30, 0, 1, 4, -3>> ELSE <<2, 7, -45, 1, 0, -5, 2>>
 Args(l, v, cz) ==
   LET full == IF Upper(l) = "A" THEN ArcPool(v) ELSE SubSeq(Pool(v), 1, Arity(l))
